@@ -1166,10 +1166,12 @@ _subcache(PyObject* cache, PyObject* key)
 {
     PyObject* subcache;
 
-    subcache = PyDict_GetItem(cache, key);
+    subcache = PyDict_GetItemWithError(cache, key);
     if (subcache == NULL) {
         int status;
 
+        if (PyErr_Occurred())
+            return NULL;
         subcache = PyDict_New();
         if (subcache == NULL)
             return NULL;
@@ -1252,10 +1254,15 @@ _lookup(LB* self,
     else
         key = required;
 
-    result = PyDict_GetItem(cache, key);
+    result = PyDict_GetItemWithError(cache, key);
     if (result == NULL) {
         int status;
 
+        if (PyErr_Occurred()) {
+            /* e.g. an unhashable required specification */
+            Py_DECREF(required);
+            return NULL;
+        }
         /* The call below runs arbitrary Python code, which can clear our
            caches (directly, or by letting another thread run). Own the
            cache dict so that we store into a live (if detached) object. */
@@ -1337,10 +1344,12 @@ _lookup1(LB* self,
     if (cache == NULL)
         return NULL;
 
-    result = PyDict_GetItem(cache, required);
+    result = PyDict_GetItemWithError(cache, required);
     if (result == NULL) {
         PyObject* tup;
 
+        if (PyErr_Occurred())
+            return NULL;
         tup = PyTuple_New(1);
         if (tup == NULL)
             return NULL;
@@ -1525,10 +1534,14 @@ _lookupAll(LB* self, PyObject* required, PyObject* provided)
         return NULL;
     }
 
-    result = PyDict_GetItem(cache, required);
+    result = PyDict_GetItemWithError(cache, required);
     if (result == NULL) {
         int status;
 
+        if (PyErr_Occurred()) {
+            Py_DECREF(required);
+            return NULL;
+        }
         /* See note in _lookup: own the cache dict across the call. */
         Py_INCREF(cache);
         result = PyObject_CallMethodObjArgs(
@@ -1605,10 +1618,14 @@ _subscriptions(LB* self, PyObject* required, PyObject* provided)
         return NULL;
     }
 
-    result = PyDict_GetItem(cache, required);
+    result = PyDict_GetItemWithError(cache, required);
     if (result == NULL) {
         int status;
 
+        if (PyErr_Occurred()) {
+            Py_DECREF(required);
+            return NULL;
+        }
         /* See note in _lookup: own the cache dict across the call. */
         Py_INCREF(cache);
         result = PyObject_CallMethodObjArgs(
